@@ -375,6 +375,8 @@ func (r *Rig) goCall(c *RigClient, kind, tok string, plan Plan, preCancelled boo
 			p.Res, p.Err = c.C.NoCtx(tok, plan)
 		case "sub":
 			p.Ch, p.Err = c.C.OpenSub(ctx, tok, plan)
+		case "mismatch":
+			p.Ch, p.Err = c.C.Mismatch(ctx, tok, plan)
 		}
 	}()
 	return p
